@@ -363,7 +363,7 @@ package plenccodec
 //@   keeps ptr 8
 //@   ensures[C04,C05] err == nil ==> 0 <= n && n <= len(data)
 //@   ensures[C09,C10] loadptr(ptr) != nil
-//@   ensures[C10] old(loadptr(ptr)) != nil ==> loadptr(ptr) == old(loadptr(ptr))
+//@   ensures[C10,C03] old(loadptr(ptr)) != nil ==> loadptr(ptr) == old(loadptr(ptr))
 
 //@ func plenccodec.WTVarIntSliceWrapper.Read
 //@   safety C04 C11
